@@ -41,6 +41,10 @@ pub struct C17Case {
     pub train: Option<TrainCase>,
     pub corridor: Option<DispatchCase>,
     pub special: u8,
+    /// settings changed in the object's image before the trip: (leaf choice, operator:
+    /// 0 flip a bool, 1 number -> 0, 2 number x 1.25)
+    #[serde(default)]
+    pub mutate: Vec<(u16, u8)>,
 }
 
 pub const KINDS: [&str; 32] = [
@@ -149,6 +153,78 @@ fn has_nonfinite<T: Serialize>(x: &T) -> bool {
 }
 
 /// (a) + (b) for one object; returns the reloaded object
+/// Settings other than the defaults: change scalar members of the object's own JSON image
+/// (outside `state` / `history` and outside arrays), load the result through `from_json` — what
+/// reading a user's file does, validation included — and send every object that loads through
+/// the same round trip.  A setting that is dropped, or defaulted differently, on the way shows
+/// as `object-changes-on-first-trip`.
+fn mutated_trips<T: SerdeAPI + PartialEq + Serialize>(x: &T, case: &C17Case, fmt: u8, kind: &str, cx: &mut Ctx) {
+    if case.mutate.is_empty() {
+        return;
+    }
+    let Ok(img) = serde_json::to_value(x) else { return };
+    fn leaves(v: &serde_json::Value, path: &mut Vec<String>, out: &mut Vec<(Vec<String>, bool)>) {
+        if let serde_json::Value::Object(m) = v {
+            for (k, c) in m {
+                if k == "state" || k == "history" {
+                    continue;
+                }
+                path.push(k.clone());
+                match c {
+                    serde_json::Value::Bool(_) => out.push((path.clone(), true)),
+                    serde_json::Value::Number(_) => out.push((path.clone(), false)),
+                    serde_json::Value::Object(_) => leaves(c, path, out),
+                    _ => {}
+                }
+                path.pop();
+            }
+        }
+    }
+    let mut ls = vec![];
+    leaves(&img, &mut vec![], &mut ls);
+    for (choice, op) in &case.mutate {
+        let want_bool = *op == 0;
+        let cand: Vec<&(Vec<String>, bool)> = ls.iter().filter(|l| l.1 == want_bool).collect();
+        if cand.is_empty() {
+            continue;
+        }
+        let (path, _) = cand[(*choice as usize * cand.len()) >> 16];
+        let mut m = img.clone();
+        {
+            let mut cur = &mut m;
+            for k in path {
+                cur = &mut cur[k.as_str()];
+            }
+            *cur = match (&*cur, op) {
+                (serde_json::Value::Bool(b), _) => serde_json::Value::Bool(!b),
+                (serde_json::Value::Number(_), 1) => serde_json::json!(0.0),
+                (serde_json::Value::Number(n), _) => {
+                    if n.is_f64() {
+                        serde_json::json!(n.as_f64().unwrap_or(0.0) * 1.25)
+                    } else {
+                        serde_json::json!(n.as_u64().unwrap_or(0) + 1)
+                    }
+                }
+                (o, _) => o.clone(),
+            };
+        }
+        let what = format!("{}:{}", ["flip", "zero", "scale"][*op as usize % 3], path.join("."));
+        match catch(|| T::from_json(m.to_string())) {
+            Ok(Ok(y)) => {
+                cx.label("changed_setting_loaded");
+                cx.label(&format!("changed_setting:{}", ["bool_flipped", "number_zeroed", "number_scaled"][*op as usize % 3]));
+                let before = cx.fails.len();
+                let _ = round_trip(&y, fmt, &format!("{kind} with {what}"), cx);
+                if cx.fails.len() > before {
+                    cx.label("failure_on_changed_setting");
+                }
+            }
+            Ok(Err(_)) => cx.label("changed_setting_rejected_on_load"),
+            Err(_) => cx.label("changed_setting_unwinds_on_load"),
+        }
+    }
+}
+
 fn round_trip<T: SerdeAPI + PartialEq + Serialize>(x: &T, fmt: u8, kind: &str, cx: &mut Ctx) -> Option<T> {
     let f = FORMATS[fmt as usize % 6];
     let fam = ["yaml", "json", "bin"][fmt as usize % 3];
@@ -176,6 +252,11 @@ fn round_trip<T: SerdeAPI + PartialEq + Serialize>(x: &T, fmt: u8, kind: &str, c
         }
         Ok(Ok(v)) => v,
     };
+    // first trip: the image of the reloaded object is the image that was saved (a setting that
+    // is dropped or defaulted differently on the way shows here, before any step is taken)
+    if let Err(d) = same_image_opts(x, &x1, fmt % 3 != 1) {
+        cx.fail(format!("C17|drift|{fam}:object-changes-on-first-trip"), format!("{kind} via {f}: {d}"));
+    }
     // second round trip: equal object, identical bytes
     let y2 = match save(&x1, fmt) {
         Ok(b) => b,
@@ -399,7 +480,9 @@ impl C17 {
             26 | 27 | 29 | 30 => Some(gen_dispatch_case(g, 2, &CorridorOpts { max_stages: 5, max_seg: 8000.0, p_branch: 0.3, ..Default::default() })),
             _ => None,
         };
-        C17Case { kind, fmt, state, k, total, units, pdct: g.int(0, 1) as u8, trace, train, corridor, special: g.int(0, 3) as u8 }
+        let special = g.int(0, 3) as u8;
+        let mutate = (0..g.weighted(&[5, 3, 2])).map(|_| (g.int(0, 65535) as u16, g.weighted(&[3, 1, 1]) as u8)).collect();
+        C17Case { kind, fmt, state, k, total, units, pdct: g.int(0, 1) as u8, trace, train, corridor, special, mutate }
     }
 
     fn check(case: &C17Case, cx: &mut Ctx) {
@@ -415,6 +498,7 @@ impl C17 {
                 if round_trip(&v, fmt, kind, cx).is_some() && case.state >= 1 {
                     cx.nontrivial();
                 }
+                mutated_trips(&v, case, fmt, kind, cx);
             }};
         }
         // save / load unwinds are caught (and reported) inside round_trip; anything else that
@@ -467,7 +551,13 @@ impl C17 {
                         if case.state == 0 {
                             Ok(Consist::default())
                         } else {
-                            build_consist(&case.units, case.pdct, Some(1))
+                            let mut c = build_consist(&case.units, case.pdct, Some(1))?;
+                            // a non-default setting: limit assertions switched off (as the
+                            // repository's calibration scripts do)
+                            if case.special >= 2 {
+                                c.set_assert_limits(false);
+                            }
+                            Ok(c)
                         }
                     };
                     if case.kind == 8 && case.state <= 1 {
